@@ -36,8 +36,8 @@ META = dict(
         'which prefixes to extend, never to judge',
         'element hashing/equality of ints and Predicate objects is correct (C18 is about the containers)'],
     min_events={'any': {'ops_executed': 20000, 'ops_raised_and_checked_unchanged': 500, 'k4_checks': 20000}},
-    budget=dict(quick=300, thorough=1500),
-    unit_timeout=dict(quick=240, thorough=1400),
+    budget=dict(quick=1500, thorough=1500),
+    unit_timeout=dict(quick=900, thorough=3000),
 )
 
 CLASSES = ('qset', 'linqset', 'Predicates')
